@@ -220,29 +220,47 @@ contract(PV + "PolyAFixer.correct_read_info", {"self": "rec:PolyAFixer", "read_e
                                              "internal_polyt_pos": rng.choice([-1, rng.randint(1, 60)])}} for _ in range(n)),
          canary="result[0] + result[1] == 0")
 
-contract(PV + "shift_polya", {"read_exons": IVS, "exon_count": "int", "polya_pos": "int"}, returns="int", props=["C16", "C11"],
-         requires=["WF(read_exons)", "0 <= exon_count <= len(read_exons)", "len(read_exons) >= 1"],
-         ensures=["not (exon_count == 0 or exon_count == len(read_exons) or polya_pos == -1) or result == polya_pos",
-                  # otherwise the position is re-expressed relative to the retained last exon: at or after its end
-                  "(exon_count == 0 or exon_count == len(read_exons) or polya_pos == -1) or "
-                  "result >= read_exons[len(read_exons) - exon_count - 1][1]"],
-         loops={0: {"inv": ["dist_to_polya >= 0"], "locals": {"exon": "tuple[int,int]"}}},
-         gen=lambda rng, n: ((lambda ex: {"read_exons": ex, "exon_count": rng.randint(0, len(ex)), "polya_pos": rng.choice([-1, rng.randint(1, 70)])})(_wf_list(rng))
-                             for _ in range(n)),
-         canary="result == polya_pos")
-
-contract(PV + "shift_polyt", {"read_exons": IVS, "exon_count": "int", "polyt_pos": "int"}, returns="int", props=["C16", "C11"],
-         requires=["WF(read_exons)", "0 <= exon_count <= len(read_exons)", "len(read_exons) >= 1"],
-         ensures=["not (exon_count == 0 or exon_count == len(read_exons) or polyt_pos == -1) or result == polyt_pos",
-                  "(exon_count == 0 or exon_count == len(read_exons) or polyt_pos == -1) or result <= read_exons[exon_count][0]"],
-         loops={0: {"inv": ["dist_to_polya >= 0"], "locals": {"exon": "tuple[int,int]"}}},
-         gen=lambda rng, n: ((lambda ex: {"read_exons": ex, "exon_count": rng.randint(0, len(ex)), "polyt_pos": rng.choice([-1, rng.randint(1, 70)])})(_wf_list(rng))
-                             for _ in range(n)),
-         canary="result == polyt_pos")
+# shift_polya / shift_polyt: contracts in c_polya.py (functional postconditions shared with C11's mirrored pair)
 
 contract("pysamlike:PolyAFinder.detect_polya", {"self": "rec:PolyAFinder", "alignment": "any"}, returns="rec:PolyAInfo",
          trusted=True, params=["self", "alignment"], ensures=[], props=[], native=False,
          note="sequence scan on the pysam record: external to this proof, any PolyAInfo may come back")
+
+@spec("list[tuple[int,int]], list[tuple[int,int]], int -> bool")
+def run_at(new, orig, off):
+    # `new` is the contiguous run of `orig` that starts at index off
+    return 0 <= off and off + len(new) <= len(orig) and all(new[k] == orig[k + off] for k in range(len(new)))
+
+
+class _StubFinder:
+    def __init__(self, info):
+        self.info = info
+
+    def detect_polya(self, alignment):
+        return self.info
+
+
+def _gen_add_polya(rng, n):
+    """real AlignmentInfo objects (fields set directly), the real PolyAFixer, a finder stub that returns a given PolyAInfo: tail positions
+    before, inside and behind every exon so that any number of terminal exons - including all of them - is classified as polyA / polyT"""
+    ai = native.repo_import("src/alignment_info.py")
+    pf = native.repo_import("src/polya_finder.py")
+    pv = native.repo_import("src/polya_verification.py")
+    for _ in range(n):
+        ex = _wf_list(rng)
+        o = ai.AlignmentInfo.__new__(ai.AlignmentInfo)
+        o.alignment = None
+        o.read_exons = list(ex)
+        o.read_blocks = [(10 * k, 10 * k + 5) for k in range(len(ex))]
+        o.cigar_blocks = [(k, k) for k in range(len(ex))]
+        o.exons_changed = False
+        o.read_start, o.read_end = ex[0][0], ex[-1][1]
+        o.polya_info = None
+        pts = [-1, -1] + [e[j] + d for e in ex for j in (0, 1) for d in (-1, 0, 1)] + [ex[-1][1] + 5, max(1, ex[0][0] - 5)]
+        info = pf.PolyAInfo(rng.choice(pts), rng.choice(pts), rng.choice(pts), rng.choice(pts))
+        fixer = pv.PolyAFixer(type("P", (), {"max_fake_terminal_exon_len": rng.choice([0, 5, 20, 100])})())
+        yield {"self": o, "polya_finder": _StubFinder(info), "polya_fixer": fixer}
+
 
 contract("src/alignment_info.py:AlignmentInfo.add_polya_info",
          {"self": "rec:AlignmentInfo", "polya_finder": "rec:PolyAFinder", "polya_fixer": "rec:PolyAFixer"}, returns="none",
@@ -258,9 +276,13 @@ contract("src/alignment_info.py:AlignmentInfo.add_polya_info",
              "len(self.read_exons) >= 1",
              "len(self.read_exons) <= len(old(self.read_exons))",
              "len(self.read_blocks) == len(self.read_exons) and len(self.cigar_blocks) == len(self.read_exons)",
-             "any(all(self.read_exons[k] == old(self.read_exons)[k + off] and self.read_blocks[k] == old(self.read_blocks)[k + off] "
-             "and self.cigar_blocks[k] == old(self.cigar_blocks)[k + off] for k in range(len(self.read_exons))) "
-             "for off in range(len(old(self.read_exons)) - len(self.read_exons) + 1))",
+             "any(run_at(self.read_exons, old(self.read_exons), off) and run_at(self.read_blocks, old(self.read_blocks), off) "
+             "and run_at(self.cigar_blocks, old(self.cigar_blocks), off) for off in range(len(old(self.read_exons)) - len(self.read_exons) + 1))",
              "self.read_start == self.read_exons[0][0] and self.read_end == self.read_exons[len(self.read_exons) - 1][1]",
              "self.exons_changed == (len(self.read_exons) != len(old(self.read_exons)))"],
-         native=False)
+         # witness of the existential in E3 (the retained run starts after the trimmed polyT exons), proved as a step before it is used
+         hints={"exit": ["0 <= max(0, polyt_exon_count) <= len(old(self.read_exons)) - len(self.read_exons)",
+                         "run_at(self.read_exons, old(self.read_exons), max(0, polyt_exon_count))",
+                         "run_at(self.read_blocks, old(self.read_blocks), max(0, polyt_exon_count))",
+                         "run_at(self.cigar_blocks, old(self.cigar_blocks), max(0, polyt_exon_count))"]},
+         gen=lambda rng, n: _gen_add_polya(rng, n))
